@@ -167,6 +167,20 @@ func taScenarios(thorough bool) []*scenario {
 	add("ta/avail/G2-G1500-BE", machine16(), []cfgSpec{taCfg("avail", taAvailable("cpuset:0-6,8-14"), taReserved("cpuset:0"))}, pods(tG2, tG1500, tBE), menu{stop: true, remove: true}, nil)
 	add("ta/8cpu/G3-B1500-B500", machine8(), std, pods(tG3, tB1500, tB500), menu{stop: true, remove: true}, nil)
 	add("ta/dies/G2-G4-B500", machine16dies(), std, pods(tG2, tG4, tB500), menu{stop: true, remove: true}, nil)
+	// kernel-isolated CPUs that are actually handed out (preferIsolated on), released and competed for again by a request
+	// that cannot be isolated as a whole
+	add("ta/iso-preferred/G2-G1-G3-B500", machine16iso(), []cfgSpec{taCfg("iso", taPreferIsolated(true))}, pods(tG2, tG1, tG3, tB500), menu{stop: true, remove: true}, nil)
+	// accepted reconfigurations that take away the very CPUs exclusive grants sit on (available set shrunk to either half,
+	// reserved set moved onto either half): the grants cannot be reinstated verbatim and the policy re-allocates everything
+	add("ta/reconf-takes-granted-cpus/G2-B500-KS", machine16(),
+		[]cfgSpec{taCfg("rsv750m"), taCfg("avail-low", taAvailable("cpuset:0-7"), taReserved("cpuset:0")), taCfg("avail-high", taAvailable("cpuset:0,8-15"), taReserved("cpuset:0")),
+			taCfg("rsv-low", taReserved("cpuset:0-3")), taCfg("rsv-high", taReserved("cpuset:8-11"))},
+		append(pods(tG2, tB500), ks), menu{stop: true, remove: true, reconf: []int{0, 1, 2, 3, 4}}, nil)
+	// the runtime loses containers behind the plugin's back (runtime restart) and re-synchronises the same plugin instance:
+	// several containers with shared grants vanish in one Synchronize
+	add("ta/resync/duo(B500+B1500)-B500-G1", machine16(), std,
+		[]podSpec{{name: "duo", ns: "default", qos: "Burstable", ctrs: []ctrSpec{{name: "c", t: tB500}, {name: "d", t: tB1500}}}, pods(tB500)[0], pod1("g", "default", "Guaranteed", tG1, nil)},
+		menu{stop: true, resyncTruth: true}, nil)
 	// shared containers in inner pools (too big for a NUMA node / a socket) next to exclusive grants below them
 	add("ta/inner/B5000-G2-B500", machine16(), std, pods(tB5000, tG2, tB500), menu{stop: true, remove: true}, nil)
 	add("ta/inner/B9000-G2-G1500", machine16(), std, pods(tB9000, tG2, tG1500), menu{stop: true, remove: true}, nil)
@@ -209,11 +223,6 @@ func c09Scenarios(thorough bool) []*scenario {
 	add("ta/c09/exhaust-G3x3", machine8(), std, pods(tG3, tG3, tG3), menu{stop: true, remove: true, sync: true}, nil)
 	add("ta/c09/reconf-between-stop-and-remove", machine16(), []cfgSpec{taCfg("rsv750m"), taCfg("rsv2", taReserved("cpuset:0,8"))},
 		pods(tG2, tB500), menu{stop: true, remove: true, sync: true, reconf: []int{0, 1}}, nil)
-	// a reconfiguration that takes away the very CPUs exclusive grants sit on: the grants cannot be reinstated as they are
-	// and the policy falls back to re-allocating everything; whichever half the grant is in, one of the two shrunk sets hits it
-	add("ta/c09/reconf-removes-granted-cpus", machine16(),
-		[]cfgSpec{taCfg("rsv750m"), taCfg("avail-low", taAvailable("cpuset:0-7"), taReserved("cpuset:0")), taCfg("avail-high", taAvailable("cpuset:0,8-15"), taReserved("cpuset:0"))},
-		pods(tG2, tG2, tB500), menu{stop: true, remove: true, reconf: []int{0, 1, 2}}, nil)
 	add("ta/c09/restart", machine16(), std, pods(tG2, tB500, tBE), menu{stop: true, remove: true, restart: true}, nil)
 	add("ta/c09/recreate", machine16(), std, pods(tG2, tG1500), menu{stop: true, remove: true}, nil)
 	out[len(out)-1].maxInc = 2
@@ -321,6 +330,19 @@ func blScenarios(thorough bool) []*scenario {
 	add("bl/annotated-avail-reconf", machine16(), []cfgSpec{blCfg("ann", ann, blAvailable("cpuset:0-13")), blCfg("ann2", ann2, blAvailable("cpuset:0-13"))},
 		[]podSpec{nsPod("a", "n1", tG1, map[string]string{annBalloon: "pinned"}), nsPod("b", "n2", tB500, map[string]string{annBalloon: "pinned"}), nsPod("c", "big", tG2, nil)},
 		menu{stop: true, remove: true, reconf: []int{0, 1}})
+	// 4b. configuration updates that only change CPU classes (a short-cut path of Reconfigure), back and forth
+	cls := func(fast, idle string) cfgSpec {
+		return blCfg("cls-"+fast+"-"+idle, []*blcfg.BalloonDef{
+			{Name: "fast", Namespaces: []string{"fast"}, MinCpus: 2, MaxCpus: 4, MinBalloons: 1, CpuClass: fast},
+			{Name: "slow", Namespaces: []string{"slow"}, MaxCpus: 2, CpuClass: "eco"},
+		}, blIdleClass(idle))
+	}
+	add("bl/classes-only-reconf", machine16(), []cfgSpec{cls("turbo", "idle"), cls("powersave", "idle"), cls("turbo", "lazy")},
+		[]podSpec{nsPod("a", "fast", tG2, nil), nsPod("b", "slow", tG1, nil)}, menu{stop: true, reconf: []int{0, 1, 2}})
+	// 4c. containers vanish from the runtime behind the plugin's back, then the same instance is re-synchronised
+	add("bl/resync/duo-in-one-balloon", machine16(), []cfgSpec{blCfg("dyn", dyn)},
+		[]podSpec{{name: "duo", ns: "dyn1", qos: "Burstable", ctrs: []ctrSpec{{name: "c", t: tB500}, {name: "d", t: tB1500}}}, nsPod("b", "share", tB500, nil)},
+		menu{stop: true, resyncTruth: true})
 	// 5. several balloons with hidden hyperthreads that share idle CPUs: one event re-pins more than one balloon
 	noht := []*blcfg.BalloonDef{
 		{Name: "noht", Namespaces: []string{"noht"}, MinCpus: 1, MaxCpus: 4, PreferNewBalloons: true, HideHyperthreads: bptr(true), ShareIdleCpusInSame: blcfg.CPUTopologyLevelPackage},
@@ -423,6 +445,9 @@ func c04Scenarios(thorough bool) []*scenario {
 	growBl := []*blcfg.BalloonDef{{Name: "grow", Namespaces: []string{"grow"}, MaxBalloons: 1}}
 	add("bl/mem/grow-across-nodes/G2-G4-G1M1G", polBalloons, machine8(), []cfgSpec{blCfg("grow", growBl)},
 		[]podSpec{nsPod("a", "grow", tG2, nil), nsPod("b", "grow", tG4, nil), nsPod("c", "grow", tG1M1G, nil)}, lm)
+	// two containers in ONE balloon whose memory together exceeds the balloon's node: admitting the second widens the first
+	add("bl/mem/same-balloon-widening/M2G-M3G-M2G", polBalloons, machine8(), []cfgSpec{blCfg("mem", memBl)},
+		[]podSpec{nsPod("a", "two", tM2G, nil), nsPod("b", "two", tM3G, nil), nsPod("c", "mem", tM2G, nil)}, lm)
 	if thorough {
 		add("bl/mem/asym/M3G-M2G-M5G", polBalloons, machineAsym(), []cfgSpec{blCfg("mem", memBl)},
 			[]podSpec{nsPod("a", "mem", tM3G, nil), nsPod("b", "two", tM2G, nil), nsPod("c", "two", tM5G, nil)}, lm)
@@ -548,6 +573,17 @@ func c13Scenarios(thorough bool) []*scenario {
 		taCfg("available-as-quantity", taAvailable("4")),
 	}
 	add("ta/reconf/options/G2-M3G-KS", polTA, machine8(), taCfgs2, append(pods(tG2, tM3G), ks), menu{stop: true, remove: true})
+	// options that register state outside the policy object (implicit pod/namespace affinities live in the cache), turned on by
+	// an update that is accepted and by one that is rejected late (after the option took effect); a two-container pod and
+	// a second pod in the same namespace make the affinities matter for later placements
+	taCfgs3 := []cfgSpec{
+		taCfg("base"),
+		taCfg("colocate-pods", func(c *cfgapi.TopologyAwarePolicy) { c.Spec.Config.ColocatePods = true }),
+		taCfg("colocate-pods+unsatisfiable", taAvailable("cpuset:0-1"), func(c *cfgapi.TopologyAwarePolicy) { c.Spec.Config.ColocatePods = true }),
+		taCfg("colocate-namespaces+unsatisfiable", taAvailable("cpuset:0-1"), func(c *cfgapi.TopologyAwarePolicy) { c.Spec.Config.ColocateNamespaces = true }),
+	}
+	two := podSpec{name: "duo", ns: "default", qos: "Burstable", ctrs: []ctrSpec{{name: "c", t: tG2}, {name: "d", t: tB500}}}
+	add("ta/reconf/colocate/duo(G2+B500)-B500", polTA, machine16(), taCfgs3, []podSpec{two, pods(tB500)[0]}, menu{stop: true})
 	// balloons
 	base := []*blcfg.BalloonDef{
 		{Name: "a", Namespaces: []string{"a"}, MinCpus: 1, MaxCpus: 4, MinBalloons: 1, ShareIdleCpusInSame: blcfg.CPUTopologyLevelSystem},
